@@ -133,6 +133,16 @@ pub fn run(ctx: &mut Ctx) {
         for_each_owned(ctx, &g, syn::X, n, n, |ctx, _s, e| { for pl in [0usize, 3, 5, 6] { case(ctx, "U-SYN", &show(&syn::place(&e, pl))) } });
         if ctx.capped { return }
     }
+    let scope_n = if ctx.quick() { 4 } else { 5 } - if debug { 1 } else { 0 };
+    let mut gs = super::c12::grammar();
+    gs.prepare(scope_n);
+    for n in 1..=scope_n {
+        ctx.stage(&format!("U-SCOPE(N={})", n));
+        for_each_owned(ctx, &gs, 1, n, n, |ctx, _s, seq| {
+            for (frame, prog) in super::c12::frames(&seq) { if frame == "block" || frame == "function" { case(ctx, "U-SCOPE", &show(&prog)) } }
+        });
+        if ctx.capped { return }
+    }
     let mut g = sem::grammar();
     g.prepare(sem_n);
     for n in 1..=sem_n {
